@@ -62,8 +62,9 @@ fn gen_stream(rng: &mut Rng, kind: u64, len: usize, target: usize, min_c: usize,
             let mut v = Vec::with_capacity(len);
             while v.len() < len {
                 let first_hashed = min_c.saturating_sub(65);
-                let want = match rng.below(4) {
+                let want = match rng.below(5) {
                     0 => first_hashed + 2,                         // earliest reachable with 2 free bytes
+                    4 => first_hashed + 2 + rng.below(62) as usize, // while the first hashed byte is still in the 64-byte window
                     1 => max_c - 1,                                // one before the forced cut
                     2 => max_c,                                    // coincides with the forced cut
                     _ => rng.range(first_hashed as u64 + 2, max_c as u64) as usize,
@@ -124,6 +125,36 @@ fn gen_partition(rng: &mut Rng, kind: u64, len: usize, target: usize, allow_tiny
     parts
 }
 
+/// partition whose call boundaries sit at chosen offsets relative to the chunk structure of the stream
+/// (the start of hashing `min-65`, the minimum, the cut itself, the forced cut), not at random positions
+fn gen_partition_aligned(rng: &mut Rng, reference: &[usize], len: usize, min_c: usize, max_c: usize) -> Vec<usize> {
+    let mut cuts: Vec<usize> = Vec::new();
+    let mut start = 0usize;
+    for l in reference {
+        let k = 1 + rng.below(3);
+        for _ in 0..k {
+            let d = rng.below(5) as usize;
+            let off = match rng.below(7) {
+                0 | 1 => (min_c + d).saturating_sub(66),     // min-66 ..= min-62: around the first hashed byte
+                2 => (min_c + d).saturating_sub(2),          // around the minimum
+                3 => d.min(2),                               // right after the previous cut
+                4 => (l + d).saturating_sub(3),              // around this cut
+                5 => (max_c + d).saturating_sub(3),          // around the forced cut
+                _ => rng.below(*l as u64 + 1) as usize,
+            };
+            if off <= *l { cuts.push(start + off); }
+        }
+        start += l;
+    }
+    cuts.push(len);
+    cuts.retain(|c| *c <= len);
+    cuts.sort();
+    let mut parts = Vec::new();
+    let mut pos = 0;
+    for c in cuts { parts.push(c - pos); pos = c; }   // equal cut points give empty calls
+    parts
+}
+
 pub fn run(ctx: &mut Ctx) {
     let mindiv = *MINIMUM_CHUNK_DIVISOR;
     let maxmul = *MAXIMUM_CHUNK_MULTIPLIER;
@@ -137,7 +168,7 @@ pub fn run(ctx: &mut Ctx) {
         let target = 1usize << texp;
         let (min_c, max_c) = (target / mindiv, target * maxmul);
         let skind = rng.below(6);
-        let pkind = rng.below(3);
+        let pkind = rng.below(4);
         let tiny_ok = target <= 1024;
         let max_len = if tiny_ok { 24 * 1024 } else { (12 * max_c).min(if ctx.quick() { 2 << 20 } else { 24 << 20 }) };
         let len = match rng.below(10) {
@@ -148,7 +179,10 @@ pub fn run(ctx: &mut Ctx) {
             _ => rng.below(max_len as u64 + 1) as usize,
         };
         let data = gen_stream(&mut rng, skind, len, target, min_c, max_c);
-        let parts = gen_partition(&mut rng, pkind, len, target, tiny_ok);
+        let parts = if pkind == 3 {
+            let r = reference_split(&data, min_c, max_c, mask_of(target));
+            gen_partition_aligned(&mut rng, &r, len, min_c, max_c)
+        } else { gen_partition(&mut rng, pkind, len, target, tiny_ok) };
         used += len + 1024;
 
         // ---- implementation: feed through next_block + finish; and a per-call trace on a second chunker
@@ -210,7 +244,7 @@ pub fn run(ctx: &mut Ctx) {
         let forced = lens.iter().filter(|l| **l == max_c).count();
         ctx.stat(&format!("target_2^{texp}"));
         ctx.stat(&format!("stream_kind_{}", ["random", "constant", "periodic", "low_entropy", "never_match", "engineered_match"][skind as usize]));
-        ctx.stat(&format!("partition_{}", ["oneshot", "fixed", "random"][pkind as usize]));
+        ctx.stat(&format!("partition_{}", ["oneshot", "fixed", "random", "structure_aligned"][pkind as usize]));
         ctx.stat_add("bytes", len as u64);
         ctx.stat_add("chunks", lens.len() as u64);
         ctx.stat_add("forced_cuts", forced as u64);
